@@ -50,6 +50,7 @@ INT_TYPES = {
     'int': ('s', 32), 'unsigned int': ('u', 32), 'unsigned': ('u', 32),
     'long': ('s', 64), 'unsigned long': ('u', 64),
     'long long': ('s', 64), 'unsigned long long': ('u', 64),
+    '_Bool': ('u', 1), 'bool': ('u', 1),
 }
 
 
@@ -74,6 +75,10 @@ def lean_ty(t):
         return 'List Char'
     if t[0] == 'bytes':
         return 'List Nat'
+    if t[0] == 'trace':
+        return 'List Ev'
+    if t[0] == 'boolp':
+        return 'Bool'
     raise Unsupported('no Lean type for C type %r' % (t,))
 
 
@@ -114,6 +119,8 @@ class TU:
         if r.returncode != 0 or not r.stdout:
             raise Unsupported('clang failed on %s: %s' % (cfile, r.stderr[-400:]))
         self.ast = json.loads(r.stdout)
+        with open(os.path.join(repo, cfile), 'rb') as f:
+            self.src = f.read()
         self.funcs, self.records, self.recname, self.typedefs, self.enumconst, self.enums = {}, {}, {}, {}, {}, {}
         self.globals = {}
         for n in self.ast['inner']:
@@ -254,18 +261,35 @@ def walk(n):
 
 
 EXIT_KINDS = ('ReturnStmt', 'BreakStmt', 'ContinueStmt', 'GotoStmt')
+NORETURN = set()      # names of the functions declared "noreturn" for the function being translated
+
+
+def call_name(n):
+    """name of the directly called function of a CallExpr, or None"""
+    if n.get('kind') != 'CallExpr' or not kids(n):
+        return None
+    f = kids(n)[0]
+    while f.get('kind') in ('ImplicitCastExpr', 'ParenExpr', 'CStyleCastExpr') and kids(f):
+        f = kids(f)[0]
+    if f.get('kind') == 'DeclRefExpr' and f.get('referencedDecl', {}).get('kind') == 'FunctionDecl':
+        return f['referencedDecl']['name']
+    return None
+
+
+def is_exit(n):
+    return n.get('kind') in EXIT_KINDS or (n.get('kind') == 'CallExpr' and call_name(n) in NORETURN)
 
 
 def may_exit(n, in_loop=False):
     for x in walk(n):
-        if x.get('kind') in EXIT_KINDS:
+        if is_exit(x):
             return True
     return False
 
 
 def falls(n):
     k = n.get('kind')
-    if k in EXIT_KINDS:
+    if is_exit(n):
         return False
     if k == 'CompoundStmt':
         return all(falls(s) for s in kids(n))
@@ -275,6 +299,45 @@ def falls(n):
             return True
         return falls(ks[1]) or falls(ks[2])
     return True
+
+
+def node_offset(n):
+    """byte offset in the main file where the node begins (the expansion point for macro bodies)"""
+    b = n.get('range', {}).get('begin', {})
+    if 'expansionLoc' in b:
+        b = b['expansionLoc']
+    return b.get('offset')
+
+
+def node_end(n):
+    b = n.get('range', {}).get('end', {})
+    if 'expansionLoc' in b:
+        b = b['expansionLoc']
+    return b.get('offset')
+
+
+def sub_stmts(n):
+    """the statements (in statement position) below n, pre-order"""
+    k = n.get('kind')
+    ks = kids(n)
+    if k == 'CompoundStmt':
+        subs = ks
+    elif k == 'IfStmt':
+        subs = ks[1:]
+    elif k == 'WhileStmt':
+        subs = ks[1:]
+    elif k == 'ForStmt':
+        subs = ks[4:]
+    elif k == 'DoStmt':
+        subs = ks[:1]
+    elif k in ('SwitchStmt', 'CaseStmt', 'DefaultStmt', 'LabelStmt'):
+        subs = ks[-1:]
+    else:
+        subs = []
+    for c in subs:
+        if c.get('kind'):
+            yield c
+            yield from sub_stmts(c)
 
 
 CTYPE_PRED = {'isdigit': 'isdigitP', 'isspace': 'isspaceP', 'isalpha': 'isalphaP', 'isalnum': 'isalnumP',
@@ -310,6 +373,20 @@ class FnTr:
         self.loopstack = []
         self.used_fields = unit.used_fields
         self.notes = []
+        self.effects = list(spec.get('effects', []))      # calls recorded in the event trace `ev_`
+        self.noreturn = list(spec.get('noreturn', []))    # recorded, then the function ends
+        self.has_ev = bool(self.effects or self.noreturn)
+        self.evvar = Var('ev', 'trace', ('trace',), name='ev_')
+        self.errno = None      # None | 'r' | 'w': errno is a parameter `errno_` / also a result
+        self.errnovar = Var('errno', 'scalar', ('s', 32), name='errno_')
+        self.opaque_ret = False
+        self.fragkind = spec.get('kind') if 'in' in spec else None
+        self.frag = None
+        if 'in' in spec:
+            self.name = spec['name']
+            self.info.name = self.name
+            if self.fragkind not in ('cond', 'stmt', 'body'):
+                raise Unsupported('fragment kind %r (cond | stmt | body)' % (self.fragkind,))
 
     # ---------- small utilities
     def fresh(self, base='t'):
@@ -336,13 +413,178 @@ class FnTr:
     def let(self, out, name, ty, code):
         out.append('let %s : %s := %s' % (name, lean_ty(ty), code))
 
+    # ---------- fragments: a condition / statement INSIDE a large function, found by a regex on its first line
+    def locate_fragment(self):
+        spec, src = self.spec, self.tu.src
+        b, e = node_offset(self.node), node_end(self.node)
+        if b is None or e is None:
+            raise Unsupported('no source range for `%s`' % self.node['name'])
+        try:
+            rx = re.compile(spec['at'].encode())
+        except re.error as ex:
+            raise Unsupported('bad regex %r: %s' % (spec['at'], ex))
+        hits, pos = [], src.rfind(b'\n', 0, b) + 1
+        while pos <= e:
+            nl = src.find(b'\n', pos)
+            if nl < 0:
+                nl = len(src)
+            if rx.search(src[pos:nl]):
+                hits.append((pos, nl))
+            pos = nl + 1
+        if len(hits) != 1:
+            raise Unsupported('the regex %r matches %d lines of `%s` (must be exactly one)' % (spec['at'], len(hits), self.node['name']))
+        lo, hi = hits[0]
+        want = ('IfStmt', 'WhileStmt', 'ForStmt', 'DoStmt') if self.fragkind == 'cond' else \
+               ('WhileStmt', 'ForStmt', 'DoStmt') if self.fragkind == 'body' else None
+        if spec.get('around'):
+            # the innermost loop whose text CONTAINS the matched line (for loops whose first line is not unique)
+            best = None
+            for st in sub_stmts(self.body()):
+                o, oe = node_offset(st), node_end(st)
+                if st.get('kind') in ('WhileStmt', 'ForStmt', 'DoStmt') and o is not None and oe is not None and o <= lo and hi <= oe + 1:
+                    best = st
+            if best is None or self.fragkind != 'body':
+                raise Unsupported('no loop around the line matching %r in `%s`' % (spec['at'], self.node['name']))
+            return None, kids(best)[{'WhileStmt': 1, 'ForStmt': 4, 'DoStmt': 0}[best['kind']]]
+        for st in sub_stmts(self.body()):
+            o = node_offset(st)
+            if o is None or not (lo <= o <= hi):
+                continue
+            k = st.get('kind')
+            if want is not None and k not in want:
+                continue
+            ks = kids(st)
+            if self.fragkind == 'cond':
+                return {'IfStmt': 0, 'WhileStmt': 0, 'ForStmt': 2, 'DoStmt': 1}[k], st
+            if self.fragkind == 'body':
+                return None, ks[{'WhileStmt': 1, 'ForStmt': 4, 'DoStmt': 0}[k]]
+            return None, st
+        raise Unsupported('no %s starts on the line matching %r in `%s`' % (
+            'if/while/for/do' if self.fragkind == 'cond' else 'loop' if self.fragkind == 'body' else 'statement',
+            spec['at'], self.node['name']))
+
+    def elem_key(self, n):
+        """`base[idx]` with base a pointer-to-struct variable and idx an integer variable -> key, else None"""
+        if n.get('kind') != 'ArraySubscriptExpr':
+            return None
+        b, i = strip(kids(n)[0]), strip(kids(n)[1])
+        while b.get('kind') == 'ImplicitCastExpr':
+            b = strip(kids(b)[0])
+        while i.get('kind') == 'ImplicitCastExpr':
+            i = strip(kids(i)[0])
+        if b.get('kind') != 'DeclRefExpr' or i.get('kind') != 'DeclRefExpr':
+            return None
+        try:
+            bt = self.tu.ty(b['type'])
+            it = self.tu.ty(i['type'])
+        except Unsupported:
+            return None
+        if bt[0] == 'ptr' and bt[1][0] == 'struct' and is_int(it):
+            return ('elem', b['referencedDecl']['id'], i['referencedDecl']['id'])
+        return None
+
+    def classify(self, cname, tj):
+        """Var for a free variable of a fragment (by its C type)"""
+        raw = (tj.get('desugaredQualType') or tj['qualType'])
+        if re.match(r'^(const )?(unsigned |signed )?char ?\[\d*\]$', raw.strip()):
+            return Var(cname, 'str', ('str',))
+        try:
+            t = self.tu.ty(tj)
+        except Unsupported:
+            return Var(cname, 'opaque', ('opaque',))
+        if is_int(t):
+            return Var(cname, 'scalar', t)
+        if t[0] == 'struct':
+            v = Var(cname, 'struct', t)
+            v.direct = True
+            return v
+        if t[0] == 'ptr' and t[1][0] == 'struct':
+            return Var(cname, 'struct', t[1])
+        if t == ('ptr', ('s', 8)):
+            return Var(cname, 'str', ('str',))
+        if t[0] == 'ptr' and is_int(t[1]):
+            return Var(cname, 'iptr', t[1])
+        return Var(cname, 'opaque', ('opaque',))
+
+    def fragment_signature(self):
+        tu, info = self.tu, self.info
+        self.condidx, self.frag = self.locate_fragment()
+        root = kids(self.frag)[self.condidx] if self.fragkind == 'cond' else self.frag
+        self.fragroot = root
+        info.ret = ('void',)
+        self.env = {}
+        inner = set(x['id'] for x in walk(root) if x.get('kind') == 'VarDecl')
+        skip = set()
+        written = self.written_roots(root)
+        def walk_kept(n):
+            yield n
+            for c in kids(n):
+                if c.get('kind') and c.get('kind').endswith('Stmt') and self.is_skipped(c):
+                    continue
+                yield from walk_kept(c)
+        for x in walk_kept(root):
+            k = x.get('kind')
+            if k == 'ArraySubscriptExpr':
+                key = self.elem_key(x)
+                if key is not None and key[1] not in inner and key[2] not in inner:
+                    b, i = strip(kids(x)[0]), strip(kids(x)[1])
+                    while b.get('kind') == 'ImplicitCastExpr':
+                        b = strip(kids(b)[0])
+                    while i.get('kind') == 'ImplicitCastExpr':
+                        i = strip(kids(i)[0])
+                    skip.add(b['id'])
+                    skip.add(i['id'])
+                    if key[2] in written:
+                        raise Unsupported('index `%s` of `%s[...]` is assigned inside the fragment' % (i['referencedDecl']['name'], b['referencedDecl']['name']))
+                    if key not in self.env:
+                        bt = tu.ty(b['type'])
+                        v = Var('%s[%s]' % (b['referencedDecl']['name'], i['referencedDecl']['name']), 'struct', bt[1],
+                                name='%s_%s' % (b['referencedDecl']['name'], i['referencedDecl']['name']))
+                        v.direct = True
+                        v.is_param = True
+                        self.env[key] = v
+                        info.params.append(v)
+                        if key[1] in written:
+                            info.inout.append(len(info.params) - 1)
+            elif k == 'DeclRefExpr' and x['id'] not in skip:
+                rd = x['referencedDecl']
+                if rd.get('kind') not in ('VarDecl', 'ParmVarDecl') or rd['id'] in inner or rd['id'] in self.env:
+                    continue
+                if rd['id'] in tu.globals:
+                    gt = None
+                    try:
+                        gt = tu.ty(rd['type'])
+                    except Unsupported:
+                        pass
+                    if gt is not None and is_int(gt):
+                        continue              # integer globals: the existing mechanism (read-only parameters)
+                v = self.classify(rd['name'], rd['type'])
+                v.is_param = True
+                self.env[rd['id']] = v
+                if v.kind == 'opaque':
+                    continue                  # only as an effect argument / in NULL tests: no parameter
+                info.params.append(v)
+                if rd['id'] in written and v.kind in ('struct', 'iptr', 'scalar'):
+                    info.inout.append(len(info.params) - 1)
+        if self.has_ev:
+            self.env['__ev__'] = self.evvar
+        return info
+
     # ---------- signature
     def signature(self):
+        if self.fragkind:
+            return self.fragment_signature()
         tu, info = self.tu, self.info
         ftype = self.node['type']['qualType']
-        info.ret = tu.ty_s(ftype[:ftype.index('(')])
-        if info.ret[0] == 'ptr' or info.ret[0] == 'struct':
-            raise Unsupported('return type %r' % (info.ret,))
+        try:
+            info.ret = tu.ty_s(ftype[:ftype.index('(')])
+        except Unsupported:
+            info.ret = ('opaque',)
+        if info.ret[0] == 'ptr' or info.ret[0] == 'struct' or info.ret[0] == 'opaque':
+            if not self.has_ev:
+                raise Unsupported('return type %r' % (info.ret,))
+            info.ret = ('void',)       # an opaque pointer is returned: only the events are observed
+            self.opaque_ret = True
         self.env = {}
         written = self.written_roots(self.body())
         for i, p in enumerate(c for c in kids(self.node) if c.get('kind') == 'ParmVarDecl'):
@@ -365,6 +607,8 @@ class FnTr:
                 info.inout.append(i)
             elif p['id'] in written and v.kind == 'str':
                 pass   # the POINTER variable is assigned (p++), not the string: decided in stmt translation
+        if self.has_ev:
+            self.env['__ev__'] = self.evvar
         return info
 
     def body(self):
@@ -404,15 +648,29 @@ class FnTr:
                 if r is not None:
                     w.add(r)
             elif k == 'CallExpr':
-                callee = self.callee_name(x)
+                callee = call_name(x)
+                if callee is None:
+                    continue
+                if callee in self.effects or callee in self.noreturn:
+                    w.add('__ev__')
+                if callee in ('strtol', 'strtoul') and len(kids(x)) == 4:
+                    r = self.root_of(kids(x)[2])
+                    if r is not None:
+                        w.add(r)
                 fi = self.unit.fninfo.get(callee)
                 if fi is not None:
+                    if getattr(fi, 'has_ev', False):
+                        w.add('__ev__')
                     args = kids(x)[1:]
                     for i in fi.inout:
                         if i < len(args):
                             r = self.root_of(args[i])
                             if r is not None:
                                 w.add(r)
+        # `base[idx].f = ...` writes the element variable of the fragment
+        for key in list(getattr(self, 'env', {}) or {}):
+            if isinstance(key, tuple) and key[0] == 'elem' and key[1] in w:
+                w.add(key)
         return w
 
     def callee_name(self, call):
@@ -429,6 +687,16 @@ class FnTr:
         locs, globs, envs, fuel = [], [], [], False
         for x in walk(n):
             k = x.get('kind')
+            if k == 'ArraySubscriptExpr':
+                key = self.elem_key(x)
+                if key is not None and key in env and key not in locs:
+                    locs.append(key)
+            if k == 'CallExpr':
+                cn0 = call_name(x)
+                fi0 = self.unit.fninfo.get(cn0)
+                if (cn0 in self.effects or cn0 in self.noreturn or (fi0 is not None and getattr(fi0, 'has_ev', False))) \
+                        and '__ev__' in env and '__ev__' not in locs:
+                    locs.append('__ev__')
             if k == 'DeclRefExpr':
                 rd = x['referencedDecl']
                 if rd['id'] in env:
@@ -650,7 +918,16 @@ class FnTr:
             raise Unsupported('reference to `%s`' % rd.get('name'))
         if k == 'MemberExpr':
             base = strip(kids(n)[0])
-            if n.get('isArrow') and base.get('kind') == 'DeclRefExpr' and base['referencedDecl']['id'] in env:
+            ek = self.elem_key(base)
+            if ek is not None and ek in env and not n.get('isArrow'):
+                v = env[ek]
+                ft = self.tu.field(v.ty[1], n['name'])
+                self.used_fields.setdefault(v.ty[1], [])
+                if n['name'] not in self.used_fields[v.ty[1]]:
+                    self.used_fields[v.ty[1]].append(n['name'])
+                return ('field', v, n['name'], ft)
+            if base.get('kind') == 'DeclRefExpr' and base['referencedDecl']['id'] in env and \
+                    bool(n.get('isArrow')) != bool(getattr(env[base['referencedDecl']['id']], 'direct', False)):
                 v = env[base['referencedDecl']['id']]
                 if v.kind == 'struct':
                     ft = self.tu.field(v.ty[1], n['name'])
@@ -661,11 +938,17 @@ class FnTr:
             raise Unsupported('member access outside `param->field`')
         if k == 'UnaryOperator' and n.get('opcode') == '*':
             base = strip(kids(n)[0])
+            if call_name(base) == '__errno_location':
+                if self.errno is None:
+                    self.errno = 'r'
+                return ('var', self.errnovar)
             if base.get('kind') == 'DeclRefExpr' and base['referencedDecl']['id'] in env:
                 v = env[base['referencedDecl']['id']]
                 if v.kind == 'iptr':
                     return ('deref', v)
                 if v.kind == 'sptr':
+                    if v.extra is None:
+                        raise Unsupported('string pointer `%s` used before it is set' % v.cname)
                     return ('stridx', v.extra, V(v.name, ('s', 64), None, True))
                 if v.kind == 'str':
                     return ('stridx', v, lit(0, ('s', 64)))
@@ -746,6 +1029,8 @@ class FnTr:
             g = self.gprefix()
         if lv[0] in ('var', 'deref'):
             v = lv[1]
+            if v is self.errnovar:
+                self.errno = 'w'
             self.let(out, v.name, v.ty, val.code if g is None else 'if %s then %s else %s' % (g, val.code, v.name))
         elif lv[0] == 'field':
             v = lv[1]
@@ -780,16 +1065,34 @@ class FnTr:
             v = env[n['referencedDecl']['id']]
             if v.kind == 'sptr':
                 return ('sptr', v)
+            if v.kind == 'opaque':
+                return ('nullable', v.cname)
             if v.kind == 'str':
                 return ('strbase', v)
             if getattr(v, 'is_param', False):
                 return ('param', v)
+        if n.get('kind') == 'DeclRefExpr' and n['referencedDecl'].get('kind') == 'VarDecl' \
+                and n['referencedDecl']['id'] in self.tu.globals:
+            return ('nullable', n['referencedDecl']['name'])
+        if call_name(n) == 'strchr':
+            return ('strchr', n)
         return ('other',)
 
     # ---------- conditions (Lean Prop, decidable)
+    def ty_or_ptr(self, tj):
+        try:
+            return self.tu.ty(tj)
+        except Unsupported:
+            q = (tj.get('desugaredQualType') or tj['qualType']).strip()
+            if q.endswith('*'):
+                return ('ptr', ('opaque',))
+            raise
+
     def cond(self, n, env, out):
         while n.get('kind') in ('ParenExpr', 'ConstantExpr'):
             n = kids(n)[0]
+        if n.get('kind') in ('ImplicitCastExpr', 'CStyleCastExpr') and n.get('castKind') in ('IntegralToBoolean', 'PointerToBoolean'):
+            return self.cond(kids(n)[0], env, out)
         k = n.get('kind')
         if k == 'BinaryOperator':
             op = n['opcode']
@@ -803,8 +1106,9 @@ class FnTr:
                     self.guard.pop()
                 return '(%s) %s (%s)' % (a, '∧' if op == '&&' else '∨', b)
             if op in ('==', '!=', '<', '>', '<=', '>='):
-                lt = self.tu.ty(L['type'])
+                lt = self.ty_or_ptr(L['type'])
                 if lt[0] == 'ptr':
+                    self._ptr_out = out
                     return self.ptrcmp(op, L, R, env)
                 a = self.ex(L, env, out)
                 b = self.ex(R, env, out)
@@ -821,8 +1125,9 @@ class FnTr:
                 if a.ty != ('s', 32):
                     raise Unsupported('ctype argument type')
                 return '%s %s' % (CTYPE_PRED[cn], a.p())
-        t = self.tu.ty(n['type'])
+        t = self.ty_or_ptr(n['type'])
         if t[0] == 'ptr':
+            self._ptr_out = out
             return self.ptrcmp('!=', n, None, env)
         v = self.ex(n, env, out)
         if not is_int(v.ty):
@@ -837,6 +1142,20 @@ class FnTr:
         if a[0] == 'null':
             a, b = b, a
         res = None
+        if b[0] == 'null' and a[0] == 'nullable' and op in ('==', '!='):
+            # a pointer the fragment does not look through: "is it NULL" is an input
+            ent = (lname(a[1]) + '_null', ('boolp',))
+            if ent not in self.info.globals:
+                self.info.globals.append(ent)
+            return ('%s = true' if op == '==' else '¬(%s = true)') % ent[0]
+        if b[0] == 'null' and a[0] == 'strchr' and op in ('==', '!='):
+            call = a[1]
+            out = self._ptr_out
+            sarg = self.str_arg(kids(call)[1], env, out)
+            cv = self.ex(kids(call)[2], env, out)
+            if cv.ty != ('s', 32):
+                raise Unsupported('strchr character argument type')
+            return ('%sstrchrP %s %s' % ('¬' if op == '==' else '', sarg, cv.p()))
         if b[0] == 'null' and a[0] in ('param', 'strbase'):
             self.assume('nonnull', 'pointer parameter `%s` is not NULL' % a[1].cname)
             res = False
@@ -877,6 +1196,13 @@ class FnTr:
                 return self.ex(sub, env, out, want)
             if ck == 'IntegralCast':
                 return self.convert(self.ex(sub, env, out), tu.ty(n['type']))
+            if ck in ('IntegralToBoolean', 'PointerToBoolean'):
+                c = self.cond(sub, env, out)
+                if c == 'True':
+                    return lit(1, ('u', 1))
+                if c == 'False':
+                    return lit(0, ('u', 1))
+                return V('if %s then (1 : Nat) else 0' % c, ('u', 1))
             if ck == 'ToVoid':
                 self.ex(sub, env, out, False)
                 return V('()', ('void',), None, True)
@@ -940,6 +1266,17 @@ class FnTr:
             L, R = kids(n)
             ty = tu.ty(n['type'])
             if op == '=':
+                l0 = strip(L)
+                if l0.get('kind') == 'DeclRefExpr' and l0['referencedDecl']['id'] in env and \
+                        env[l0['referencedDecl']['id']].kind == 'sptr' and env[l0['referencedDecl']['id']].extra is None:
+                    # first assignment of a `char *p;` declared without initialiser: p = s + k
+                    pv = env[l0['referencedDecl']['id']]
+                    if self.guard or self.in_loop() or want:
+                        raise Unsupported('first assignment of the string pointer `%s` in a nested position' % pv.cname)
+                    base, off = self.str_ptr_init(R, env, out)
+                    pv.extra = base
+                    self.let(out, pv.name, ('s', 64), off)
+                    return V('()', ('void',), None, True)
                 lv = self.lvalue(L, env, out)
                 if lv[0] == 'var' and lv[1].kind == 'sptr':
                     raise Unsupported('re-assignment of a string pointer')
@@ -1010,8 +1347,17 @@ class FnTr:
     # ---------- calls
     def str_arg(self, a, env, out):
         a = strip(a)
-        while a.get('kind') in ('ImplicitCastExpr', 'CStyleCastExpr') and a.get('castKind') in ('NoOp', 'LValueToRValue', 'BitCast'):
+        while a.get('kind') in ('ImplicitCastExpr', 'CStyleCastExpr') and a.get('castKind') in ('NoOp', 'LValueToRValue', 'BitCast', 'ArrayToPointerDecay'):
             a = strip(kids(a)[0])
+        if a.get('kind') == 'StringLiteral':
+            try:
+                val = json.loads(a['value'])
+            except Exception:
+                raise Unsupported('string literal %r' % a.get('value'))
+            bs = val.encode('latin-1', 'strict') if all(ord(ch) < 256 for ch in val) else None
+            if bs is None or 0 in bs:
+                raise Unsupported('string literal outside bytes 1..255')
+            return '[' + ', '.join('Char.ofNat %d' % b for b in bs) + ']'
         if a.get('kind') == 'DeclRefExpr' and a['referencedDecl']['id'] in env:
             v = env[a['referencedDecl']['id']]
             if v.kind == 'str':
@@ -1044,11 +1390,22 @@ class FnTr:
                 self._envcalls = {}
             self._envcalls[cn] = self._envcalls.get(cn, 0) + 1
             if self._envcalls[cn] > 1:
-                raise Unsupported('more than one call of %s() in one function' % cn)
+                if self.loopstack and any(f.get('kind') != 'switch' for f in self.loopstack):
+                    raise Unsupported('more than one call of %s() inside a loop' % cn)
+                ent = ('env_%s_%d' % (cn, self._envcalls[cn]), ENV_INPUT[cn])    # every call is its own input
+                self.info.envin.append(ent)
+                return V(ent[0], ent[1], None, True)
             return self.use_env(cn)
+        if cn in ('strtol', 'strtoul'):
+            return self.strto(cn, args, env, out)
+        if cn in self.effects or cn in self.noreturn:
+            self.emit_event(cn, args, env, out)
+            return V('()', ('void',), None, True)
         fi = self.unit.fninfo.get(cn)
+        if fi is None and cn in self.tu.funcs:
+            fi = self.unit.translate_aux(cn, self)
         if fi is None:
-            raise Unsupported('call of `%s` (not translated, not a modelled libc function)' % cn)
+            raise Unsupported('call of `%s` (not translated, not a modelled libc function, not a declared effect)' % cn)
         if self.guard:
             raise Unsupported('call of `%s` under a short-circuit / conditional operator' % cn)
         if len(args) != len(fi.params):
@@ -1066,11 +1423,20 @@ class FnTr:
                 argc.append(self.str_arg(a, env, out))
             elif p.kind == 'struct':
                 a0 = strip(a)
-                if not (a0.get('kind') == 'DeclRefExpr' and a0['referencedDecl']['id'] in env
-                        and env[a0['referencedDecl']['id']].kind == 'struct'
-                        and env[a0['referencedDecl']['id']].ty == p.ty):
+                sv = None
+                if a0.get('kind') == 'UnaryOperator' and a0.get('opcode') == '&':
+                    a1 = strip(kids(a0)[0])
+                    ek = self.elem_key(a1)
+                    if ek is not None and ek in env:
+                        sv = env[ek]                          # &base[idx]
+                    elif a1.get('kind') == 'DeclRefExpr' and a1['referencedDecl']['id'] in env and \
+                            getattr(env[a1['referencedDecl']['id']], 'direct', False):
+                        sv = env[a1['referencedDecl']['id']]  # &structvar
+                elif a0.get('kind') == 'DeclRefExpr' and a0['referencedDecl']['id'] in env and \
+                        not getattr(env[a0['referencedDecl']['id']], 'direct', False):
+                    sv = env[a0['referencedDecl']['id']]
+                if sv is None or sv.kind != 'struct' or sv.ty != p.ty:
                     raise Unsupported('struct argument %d of `%s`' % (i, cn))
-                sv = env[a0['referencedDecl']['id']]
                 argc.append(sv.name)
                 if i in fi.inout:
                     backs.append((i, ('structvar', sv)))
@@ -1110,7 +1476,9 @@ class FnTr:
         out.append('match %s with' % callcode)
         out.append('| none => none')
         out.append('| some %s =>' % r)
-        nres = (0 if fi.ret == ('void',) else 1) + len(fi.inout)
+        if getattr(fi, 'errno', None):
+            raise Unsupported('call of `%s`, which uses errno' % cn)
+        nres = (0 if fi.ret == ('void',) else 1) + len(fi.inout) + (1 if getattr(fi, 'has_ev', False) else 0)
 
         def proj(j):
             if nres == 1:
@@ -1129,11 +1497,81 @@ class FnTr:
                 out.append('let %s : %s := %s' % (sv.name, lean_ty(sv.ty), code))
             else:
                 self.write_lv(how[1], V(code, self.lv_type(how[1]), None, False), out)
+        if getattr(fi, 'has_ev', False):
+            if not self.has_ev:
+                raise Unsupported('call of `%s`, which records effects, from a function without declared effects' % cn)
+            self.write_lv(('var', self.evvar), V('ev_ ++ %s' % proj(j), ('trace',)), out)
         return retv
 
+    # ---------- declared effects: the call is recorded in the trace `ev_` (its result is not used)
+    def emit_event(self, cn, args, env, out):
+        parts = []
+        for a in args:
+            code = '.other'
+            tmp = []
+            try:
+                a0 = strip(a)
+                while a0.get('kind') in ('ImplicitCastExpr', 'CStyleCastExpr') and a0.get('castKind') in ('NoOp', 'BitCast', 'ArrayToPointerDecay'):
+                    a0 = strip(kids(a0)[0])
+                t = self.ty_or_ptr(a['type'])
+                if is_int(t):
+                    v = self.ex(a, env, tmp)
+                    code = '.int %s' % (v.p() if v.ty[0] == 's' else '((%s : Nat) : Int)' % v.code)
+                elif t[0] == 'ptr' and a0.get('kind') != 'StringLiteral':
+                    code = '.str %s' % self.str_arg(a, env, tmp)
+            except Unsupported:
+                tmp, code = [], '.other'
+            out.extend(tmp)
+            parts.append(code)
+        ev = 'ev_ ++ [⟨"%s", [%s]⟩]' % (cn, ', '.join(parts))
+        self.write_lv(('var', self.evvar), V(ev, ('trace',)), out)
+
+    # ---------- strtol / strtoul (base 10, with an end pointer): PdshVerif.CInt's glibc model
+    def strto(self, cn, args, env, out):
+        if len(args) != 3:
+            raise Unsupported('%s argument count' % cn)
+        base = self.ex(args[2], env, out)
+        if base.const != 10:
+            raise Unsupported('%s with a base other than the constant 10' % cn)
+        a0 = strip(args[0])
+        while a0.get('kind') in ('ImplicitCastExpr', 'CStyleCastExpr') and a0.get('castKind') in ('NoOp', 'BitCast', 'LValueToRValue'):
+            a0 = strip(kids(a0)[0])
+        if not (a0.get('kind') == 'DeclRefExpr' and a0['referencedDecl']['id'] in env and env[a0['referencedDecl']['id']].kind == 'str'):
+            raise Unsupported('%s on something other than a string parameter' % cn)
+        sv = env[a0['referencedDecl']['id']]
+        self.unit.need_cint = True
+        r = self.fresh('r')
+        out.append('let %s := PdshVerif.CInt.%s %s' % (r, cn, sv.name))
+        # errno = ERANGE on overflow, untouched otherwise
+        self.write_lv(('var', self.errnovar), V('if %s.erange = true then (34 : Int) else errno_' % r, ('s', 32)), out)
+        e0 = strip(args[1])
+        if self.ptr_class(e0, env)[0] != 'null':
+            if not (e0.get('kind') == 'UnaryOperator' and e0.get('opcode') == '&'):
+                raise Unsupported('%s end pointer argument' % cn)
+            pv = strip(kids(e0)[0])
+            if not (pv.get('kind') == 'DeclRefExpr' and pv['referencedDecl']['id'] in env and env[pv['referencedDecl']['id']].kind == 'sptr'):
+                raise Unsupported('%s end pointer is not a local `char *`' % cn)
+            v = env[pv['referencedDecl']['id']]
+            if v.extra is not None and v.extra is not sv:
+                raise Unsupported('%s end pointer already points into another string' % cn)
+            v.extra = sv
+            if self.guard:
+                raise Unsupported('side effect under a short-circuit / conditional operator')
+            self.let(out, v.name, ('s', 64), '(%s.length : Int) - (%s.rest.length : Int)' % (sv.name, r))
+        return V('%s.value' % r, ('s', 64) if cn == 'strtol' else ('u', 64), None, True)
+
     # ---------- statements  (continuation style: k(env) gives the lines of what follows)
+    def in_loop(self):
+        return any(f.get('kind') != 'switch' for f in self.loopstack)
+
     def result_code(self, env, val):
         outs = [self.info.params[i].name for i in self.info.inout]
+        if self.errno == 'w' or self.spec.get('errno') == 'result':
+            if self.spec.get('errno') != 'result':
+                raise Unsupported('errno is assigned: declare "errno": "result" in the registry')
+            outs.append('errno_')
+        if self.has_ev:
+            outs.append('ev_')
         parts = ([] if val is None else [val.code]) + outs
         if not parts:
             return 'some ()'
@@ -1141,10 +1579,26 @@ class FnTr:
             return 'some %s' % (val.p() if val is not None else parts[0])
         return 'some (%s)' % ', '.join(parts)
 
+    def is_skipped(self, s):
+        """registry "skip": statements that BEGIN with one of these macro / function names are left out (declared
+        not to influence the decision, e.g. the mutex macros around it); trusted, listed in the doc comment"""
+        names = self.spec.get('skip', [])
+        o = node_offset(s)
+        if not names or o is None:
+            return False
+        text = self.tu.src[o:o + 80]
+        for n in names:
+            b = n.encode()
+            if text.startswith(b) and not (text[len(b):len(b) + 1].isalnum() or text[len(b):len(b) + 1] == b'_'):
+                return True
+        return False
+
     def stmts(self, lst, env, k):
         if not lst:
             return k(env)
         s, rest = lst[0], lst[1:]
+        if self.is_skipped(s):
+            return self.stmts(rest, env, k)
         return self.stmt(s, env, lambda e: self.stmts(rest, e, k))
 
     def stmt(self, s, env, k):
@@ -1159,7 +1613,12 @@ class FnTr:
             for d in kids(s):
                 if d.get('kind') != 'VarDecl':
                     raise Unsupported('declaration of kind %s' % d.get('kind'))
-                t = self.tu.ty(d['type'])
+                try:
+                    t = self.tu.ty(d['type'])
+                except Unsupported:
+                    if not (self.has_ev or self.fragkind):
+                        raise
+                    t = ('array',) if '[' in d['type']['qualType'] else ('opaque',)
                 init = [c for c in kids(d) if 'Attr' not in c.get('kind', '')]
                 for v in env.values():
                     if v.name == lname(d['name']):
@@ -1172,44 +1631,147 @@ class FnTr:
                         if val.ty != t:
                             raise Unsupported('initialiser type %r for %r' % (val.ty, t))
                         self.let(out, var.name, t, val.code)
+                elif t[0] == 'ptr' and init and call_name(strip(init[0])) in self.effects:
+                    env[d['id']] = Var(d['name'], 'opaque', ('opaque',))     # e.g. `char *str = Strdup ("")`
+                    self.ex(strip(init[0]), env, out, False)
                 elif t == ('ptr', ('s', 8)) and init:
                     base, off = self.str_ptr_init(init[0], env, out)
                     var = Var(d['name'], 'sptr', ('s', 64), extra=base)
                     env[d['id']] = var
                     self.let(out, var.name, ('s', 64), off)
+                elif t == ('ptr', ('s', 8)) and not init:
+                    # set later by strtol/strtoul(.., &p, ..); any earlier use leaves `p` unbound in Lean (loud)
+                    env[d['id']] = Var(d['name'], 'sptr', ('s', 64), extra=None)
+                elif (self.has_ev or self.fragkind) and (t[0] in ('ptr', 'opaque', 'array')):
+                    env[d['id']] = Var(d['name'], 'opaque', ('opaque',))
+                    if init:
+                        if call_name(strip(init[0])) in self.effects:
+                            self.ex(strip(init[0]), env, out, False)
+                        else:
+                            raise Unsupported('initialiser of the opaque local `%s` is not a declared effect' % d['name'])
                 else:
                     raise Unsupported('local `%s` of type %r' % (d['name'], t))
             return out + k(env)
         if kind == 'ReturnStmt':
             out = []
             val = None
-            if kids(s):
+            if self.fragkind:
+                raise Unsupported('return inside a fragment')
+            if kids(s) and self.opaque_ret:
+                pass                      # the returned pointer is not observed (only the events are)
+            elif kids(s):
                 val = self.ex(kids(s)[0], env, out)
                 if val.ty != self.info.ret:
                     raise Unsupported('return of %r from a function returning %r' % (val.ty, self.info.ret))
             elif self.info.ret != ('void',):
                 raise Unsupported('return without a value')
-            if self.loopstack:
+            if self.in_loop():
                 raise Unsupported('return inside a loop')
             return out + [self.result_code(env, val)]
         if kind == 'BreakStmt':
-            if not self.loopstack:
+            if not self.loopstack or self.loopstack[-1].get('brk') is None:
                 raise Unsupported('break outside a loop')
             return self.loopstack[-1]['brk'](env)
         if kind == 'ContinueStmt':
-            if not self.loopstack:
+            if not self.loopstack or self.loopstack[-1].get('cont') is None:
                 raise Unsupported('continue outside a loop')
             return self.loopstack[-1]['cont'](env)
         if kind == 'IfStmt':
             return self.if_stmt(s, env, k)
         if kind in ('WhileStmt', 'ForStmt'):
             return self.loop_stmt(s, env, k)
-        if kind in ('DoStmt', 'SwitchStmt', 'GotoStmt', 'LabelStmt', 'CaseStmt', 'DefaultStmt', 'GCCAsmStmt'):
+        if kind == 'SwitchStmt':
+            return self.switch_stmt(s, env, k)
+        if kind == 'DoStmt':
+            body, C = kids(s)[0], kids(s)[1]
+            cv = self.tu._constval(C) if strip(C).get('kind') in ('IntegerLiteral', 'ConstantExpr') else None
+            if cv != 0:
+                raise Unsupported('do-while whose condition is not the constant 0')
+            for x in walk(body):
+                if x.get('kind') in ('BreakStmt', 'ContinueStmt'):
+                    raise Unsupported('break/continue inside do { } while (0)')
+            return self.stmt(body, env, k)
+        if kind in ('GotoStmt', 'LabelStmt', 'CaseStmt', 'DefaultStmt', 'GCCAsmStmt'):
             raise Unsupported('statement kind %s' % kind)
         # expression statement
         out = []
+        s0 = strip(s)
+        if call_name(s0) in self.noreturn:
+            self.ex(s0, env, out, False)
+            if self.info.ret != ('void',):
+                raise Unsupported('noreturn call in a function that returns a value')
+            if self.in_loop():
+                raise Unsupported('noreturn call inside a loop')
+            return out + [self.result_code(env, None)]
         self.ex(s, env, out, False)
         return out + k(env)
+
+    def switch_stmt(self, s, env, k):
+        C, body = kids(s)[0], kids(s)[-1]
+        if body.get('kind') != 'CompoundStmt':
+            raise Unsupported('switch without a compound body')
+        out = []
+        v = self.ex(C, env, out)
+        if not is_int(v.ty):
+            raise Unsupported('switch on a value of type %r' % (v.ty,))
+        sw = self.fresh('sw')
+        self.let(out, sw, v.ty, v.code)
+        groups = []
+        for st in kids(body):
+            labels, cur = [], st
+            while cur.get('kind') in ('CaseStmt', 'DefaultStmt'):
+                ks = kids(cur)
+                if cur['kind'] == 'CaseStmt':
+                    if len(ks) != 2:
+                        raise Unsupported('case range')
+                    cval = self.tu._constval(ks[0])
+                    if cval is None:
+                        cval = self.ex(ks[0], env, []).const
+                    if cval is None:
+                        raise Unsupported('case label without a constant value')
+                    labels.append(cval)
+                else:
+                    labels.append('default')
+                cur = ks[-1]
+            if labels:
+                groups.append((labels, [cur]))
+            elif not groups:
+                raise Unsupported('statement before the first case label')
+            else:
+                groups[-1][1].append(cur)
+        for (labels, stmts) in groups[:-1]:
+            if all(falls(x) for x in stmts):
+                raise Unsupported('fall-through out of a non-empty case group (%s)' % labels)
+        seen = [l for (ls, _) in groups for l in ls]
+        if len(set(seen)) != len(seen):
+            raise Unsupported('duplicate case label')
+        rest = k(env)
+        if len(rest) > 60:
+            raise Unsupported('irregular control flow (a large continuation would have to be duplicated)')
+        outer = self.loopstack[-1] if self.loopstack else None
+        self.loopstack.append({'kind': 'switch', 'brk': lambda e: list(rest),
+                               'cont': (outer['cont'] if outer else None)})
+        try:
+            arms, dflt = [], None
+            for (labels, stmts) in groups:
+                lines = self.stmts(stmts, dict(env), lambda e: list(rest))
+                if 'default' in labels:
+                    dflt = lines        # other labels of the default group need no test
+                else:
+                    lo, hi = trange(v.ty)
+                    for l in labels:
+                        if not (lo <= l <= hi):
+                            raise Unsupported('case label %d outside %r' % (l, v.ty))
+                    tests = ' ∨ '.join('%s = %s' % (sw, lit(l, v.ty).code) for l in labels)
+                    arms.append((tests, lines))
+        finally:
+            self.loopstack.pop()
+        if dflt is None:
+            dflt = list(rest)
+        res = dflt
+        for (tests, lines) in reversed(arms):
+            res = ['if %s then' % tests] + ['  ' + l for l in self.block(lines)] + ['else'] + ['  ' + l for l in self.block(res)]
+        return out + res
 
     def str_ptr_init(self, n, env, out):
         n = strip(n)
@@ -1428,7 +1990,7 @@ class FnTr:
                 raise Unsupported('for loop without a condition')
             if not inc or not inc.get('kind'):
                 inc = None
-        if self.loopstack:
+        if self.in_loop():
             raise Unsupported('nested loop')
         self.info.fuel = True
         self.nloop += 1
@@ -1443,8 +2005,11 @@ class FnTr:
             locs += [x for x in l2 if x not in locs]
             globs += [x for x in g2 if x not in globs]
             envs += [x for x in e2 if x not in envs]
-        state = [env[i] for i in env if i in w and i in locs]
-        ro = [env[i] for i in env if i in locs and i not in w]
+        state = [env[i] for i in env if i in w and i in locs and env[i].kind != 'opaque']
+        ro = [env[i] for i in env if i in locs and i not in w and env[i].kind != 'opaque']
+        for v in list(state) + list(ro):
+            if v.kind == 'sptr' and v.extra is not None and v.extra not in ro and v.extra not in state:
+                ro.append(v.extra)          # `*p` reads the string p points into
         for v in state:
             if v.kind == 'str':
                 raise Unsupported('string parameter `%s` re-assigned in a loop (copy it into a local pointer)' % v.cname)
@@ -1502,23 +2067,74 @@ class FnTr:
         return out + k(env)
 
     # ---------- whole function
+    def prefetch_callees(self):
+        """translate (as auxiliaries) the same-file functions this one calls, before its own body is analysed"""
+        if self.fragkind:
+            ci, fr = self.locate_fragment()
+            root = kids(fr)[ci] if self.fragkind == 'cond' else fr
+        else:
+            root = self.body()
+        for x in walk(root):
+            cn = call_name(x)
+            if cn and cn in self.tu.funcs and cn not in self.unit.fninfo and cn != self.node['name'] \
+                    and cn not in self.effects and cn not in self.noreturn:
+                try:
+                    self.unit.translate_aux(cn, self)
+                except Unsupported:
+                    pass        # reported when (if) the call is really translated
+
     def translate(self):
+        global NORETURN
+        self.prefetch_callees()
+        NORETURN = set(self.noreturn)
         info = self.signature()
-        body = self.body()
+        info.has_ev = self.has_ev
 
         def fallthrough(e):
             if info.ret != ('void',):
                 return ['none /- control reaches the end of a non-void function -/']
             return [self.result_code(e, None)]
-        lines = self.stmts(kids(body), dict(self.env), fallthrough)
-        rparts = ([] if info.ret == ('void',) else [lean_ty(info.ret)]) + [lean_ty(info.params[i].ty) for i in info.inout]
+        if self.fragkind == 'cond':
+            lines = []
+            c = self.cond(self.fragroot, dict(self.env), lines)
+            lines.append('some (decide (%s))' % c)
+        elif self.fragkind == 'body':
+            # `continue` ends the fragment normally; `break` would need a flag: refused
+            self.loopstack.append({'kind': 'switch', 'brk': None, 'cont': fallthrough})
+            try:
+                lines = self.stmt(self.fragroot, dict(self.env), fallthrough)
+            finally:
+                self.loopstack.pop()
+        elif self.fragkind == 'stmt':
+            lines = self.stmt(self.fragroot, dict(self.env), fallthrough)
+        else:
+            lines = self.stmts(kids(self.body()), dict(self.env), fallthrough)
+        if self.has_ev:
+            lines = ['let ev_ : List Ev := []'] + lines
+        info.errno = self.errno
+        rparts = ([] if info.ret == ('void',) else [lean_ty(info.ret)]) + [lean_ty(info.params[i].ty) for i in info.inout] + \
+                 (['Int'] if self.spec.get('errno') == 'result' else []) + (['List Ev'] if self.has_ev else [])
         rty = ' × '.join(rparts) if rparts else 'Unit'
+        if self.fragkind == 'cond':
+            rty = 'Bool'
+        if self.errno == 'w' and self.spec.get('errno') != 'result':
+            raise Unsupported('errno is assigned: declare "errno": "result" in the registry')
         params = (['(fuel : Nat)'] if info.fuel else []) + \
                  ['(%s : %s)' % (n_, lean_ty(t)) for (n_, t) in info.globals + info.envin] + \
+                 (['(errno_ : Int)'] if self.errno else []) + \
                  ['(%s : %s)' % (v.name, lean_ty(v.ty)) for v in info.params]
         csig = self.c_signature()
-        doc = ['/-- C: `%s`' % csig]
-        if info.inout:
+        if self.fragkind:
+            what = {'cond': 'the condition of the statement', 'stmt': 'the statement', 'body': 'the body of the loop'}[self.fragkind]
+            doc = ['/-- C: %s of `%s` whose first line matches /%s/' % (what, self.node['name'], self.spec['at'].replace('-/', '- /')),
+                   '    free variables are parameters (`a[i]` is one record `a_i`), assigned ones are results']
+        else:
+            doc = ['/-- C: `%s`' % csig]
+        if self.has_ev:
+            doc.append('    declared effects (recorded in the last result, in order): %s' % ', '.join(self.effects + self.noreturn))
+        if self.spec.get('skip'):
+            doc.append('    statements left out (declared irrelevant to the decision): those beginning with %s' % ', '.join(self.spec['skip']))
+        if info.inout and not self.fragkind:
             doc.append('    result: (%s)' % ', '.join((['return value'] if info.ret != ('void',) else []) +
                                                       ['*%s afterwards' % info.params[i].cname if info.params[i].kind == 'iptr'
                                                        else '*%s afterwards' % info.params[i].cname for i in info.inout]))
@@ -1550,6 +2166,39 @@ class Unit:
         self.fninfo = {}
         self.used_fields = {}
         self.failed = []
+        self.sigs = {}
+        self.pending_aux = []      # texts of auxiliary definitions translated on demand (emitted before their caller)
+        self.aux_busy = set()
+        self.aux_failed = {}
+
+    def translate_aux(self, cn, caller):
+        """a function of the same file that a registered target calls: translated like a registered one, marked
+        @[simp] so that the bridge proofs see through it (extracting a helper / inlining it is then invisible)"""
+        global NORETURN
+        if cn in self.aux_failed:
+            raise Unsupported('call of `%s`, which is outside the subset: %s' % (cn, self.aux_failed[cn]))
+        if cn in self.aux_busy:
+            raise Unsupported('recursive call of `%s`' % cn)
+        node = self.tu.funcs[cn]
+        called = set(call_name(x) for x in walk(node) if x.get('kind') == 'CallExpr')
+        spec = {'name': cn, 'assume': list(caller.spec.get('assume', [])),
+                'effects': [e for e in caller.effects if e in called],
+                'noreturn': [e for e in caller.noreturn if e in called]}
+        self.aux_busy.add(cn)
+        saved = set(NORETURN)
+        try:
+            tr = FnTr(self.tu, self, node, spec)
+            text = tr.translate()
+        except Unsupported as e:
+            self.aux_failed[cn] = str(e)
+            raise Unsupported('call of `%s`, which is outside the subset: %s' % (cn, e))
+        finally:
+            self.aux_busy.discard(cn)
+            NORETURN = saved
+        self.fninfo[cn] = tr.info
+        self.pending_aux.append(text.replace('\ndef %s ' % cn, '\n@[simp] def %s ' % cn, 1)
+                                .replace(' -/\n@[simp] def', '\n    AUXILIARY (not registered: called by a registered target, translated on demand) -/\n@[simp] def', 1))
+        return tr.info
 
     def generate(self):
         tu = TU(self.repo, self.spec['file'])
@@ -1557,15 +2206,29 @@ class Unit:
         texts = []
         for f in self.spec['functions']:
             fname = f['name']
-            node = tu.funcs.get(fname)
+            node = tu.funcs.get(f.get('in', fname))
             try:
                 if node is None:
-                    raise Unsupported('no definition of `%s` in %s' % (fname, self.spec['file']))
+                    raise Unsupported('no definition of `%s` in %s' % (f.get('in', fname), self.spec['file']))
+                if 'in' not in f and fname in self.fninfo:
+                    raise Unsupported('`%s` was already translated as an auxiliary of an earlier target: register it before its callers' % fname)
                 tr = FnTr(tu, self, node, f)
                 text = tr.translate()
                 self.fninfo[fname] = tr.info
+                texts.extend(self.pending_aux)
+                self.pending_aux = []
                 texts.append(text)
+                # the Lean signature the bridge theorem is stated for (recorded in the registry by --record-sigs)
+                m = re.search(r'^def %s (.*?) :=$' % re.escape(fname), text, re.M)
+                sig = m.group(1) if m else ''
+                self.sigs[fname] = sig
+                if f.get('sig') and sig != f['sig']:
+                    self.failed.append((fname, 'signature changed: parameters/result `%s` -> `%s` (the bridge theorem is stated '
+                                        'for the recorded signature; a bridge cannot follow a changed interface automatically: '
+                                        'restate it, then `c2lean.py --record-sigs`)' % (f['sig'], sig)))
             except Unsupported as e:
+                texts.extend(self.pending_aux)
+                self.pending_aux = []
                 self.failed.append((fname, str(e)))
                 texts.append('-- TRANSLATION FAILED for `%s`: %s' % (fname, e))
         structs = []
@@ -1581,12 +2244,12 @@ class Unit:
                 cm = {'u': 'unsigned %d bit' % ft[1], 's': 'signed %d bit' % ft[1]}.get(ft[0], 'read-only buffer') if len(ft) > 1 else \
                     ('NUL-terminated string' if ft == ('str',) else 'byte buffer')
                 lines.append('  %s : %s   -- %s' % (lname(fn_), lean_ty(ft), cm))
-            lines.append('  deriving Repr, DecidableEq')
+            lines.append('  deriving Repr, DecidableEq, Inhabited')
             structs.append('\n'.join(lines))
         hdr = ['-- GENERATED by tools/c2lean.py from %s of the checked tree. DO NOT EDIT.' % self.spec['file'],
                '-- functions: %s' % ', '.join(f['name'] for f in self.spec['functions']),
                '-- semantics: tools/c2lean.md (`none` = undefined behaviour or fuel exhausted)',
-               'import PdshVerif.C2Lean.Prelude', '', 'set_option linter.unusedVariables false', '',
+               'import PdshVerif.C2Lean.Prelude'] + (['import PdshVerif.Base.CInt'] if getattr(self, 'need_cint', False) else []) + ['', 'set_option linter.unusedVariables false', '',
                'namespace PdshVerif.Gen.Fn.%s' % self.name, 'open PdshVerif.C2Lean', '', '']
         body = '\n\n'.join(structs + texts)
         return '\n'.join(hdr) + body + '\n\nend PdshVerif.Gen.Fn.%s\n' % self.name
@@ -1595,6 +2258,9 @@ class Unit:
 def load_targets(path):
     with open(path) as f:
         return json.load(f)
+
+
+SIGS = {}      # unit -> {target: Lean signature} of the last regen()
 
 
 def regen(repo, targets_path, outdir, units=None, write=True):
@@ -1612,6 +2278,7 @@ def regen(repo, targets_path, outdir, units=None, write=True):
             text = '-- TRANSLATION FAILED for unit %s: %s\nnamespace PdshVerif.Gen.Fn.%s\nend PdshVerif.Gen.Fn.%s\n' % (uname, e, uname, uname)
         for (fn_, why) in u.failed:
             failures.append((uname, fn_, why))
+        SIGS[uname] = dict(u.sigs)
         texts[uname] = text
         path = os.path.join(outdir, 'Fn%s.lean' % uname)
         old = None
@@ -1636,8 +2303,28 @@ def main():
     ap.add_argument('--unit', action='append')
     ap.add_argument('--check', action='store_true', help='do not write; exit 2 if a file would change')
     ap.add_argument('--stdout', action='store_true')
+    ap.add_argument('--record-sigs', action='store_true', help='store the current Lean signatures in the registry ("sig")')
     a = ap.parse_args()
     changed, failures, texts = regen(a.repo, a.targets, a.out, a.unit, write=not (a.check or a.stdout))
+    if a.record_sigs:
+        raw = open(a.targets).read()
+        reg = json.loads(raw)
+        for uname, sigs in SIGS.items():
+            for f in reg['units'][uname]['functions']:
+                if f['name'] in sigs:
+                    f['sig'] = sigs[f['name']]
+        out = ['{', ' "comment": %s,' % json.dumps(reg['comment'], ensure_ascii=False), ' "units": {']
+        us = list(reg['units'].items())
+        for ui, (un, spec) in enumerate(us):
+            out += ['  %s: {' % json.dumps(un), '   "file": %s,' % json.dumps(spec['file']),
+                    '   "bridge_module": %s,' % json.dumps(spec['bridge_module']), '   "functions": [']
+            fs = spec['functions']
+            out += ['    %s%s' % (json.dumps(f, ensure_ascii=False), ',' if i < len(fs) - 1 else '') for i, f in enumerate(fs)]
+            out += ['   ]', '  }%s' % (',' if ui < len(us) - 1 else '')]
+        out += [' }', '}']
+        with open(a.targets, 'w') as fh:
+            fh.write('\n'.join(out) + '\n')
+        failures = [x for x in failures if not x[2].startswith('signature changed')]
     if a.stdout:
         for u, t in texts.items():
             sys.stdout.write(t)
